@@ -86,3 +86,6 @@ package owned
 //@   params ctx, ptr, fins
 //@   modifies finPtr, finOK
 //@   ensures [fin-record] finPtr == ptr && finOK == (result == nil)
+//@
+//@ func New
+//@   inline
